@@ -300,6 +300,9 @@ def run_harness(h, replay_bins, tier_caps):
     if pk["error"]:
         res.update(status="INCONCLUSIVE", reason=pk["error"])
         return res
+    if "Solver ran out of memory" in out or re.search(r"^\t - Status: ERROR", out, re.M):
+        res.update(status="INCONCLUSIVE", reason="CBMC/solver error (out of memory under the %s GB cap?)" % mem)
+        return res
     unsat_covers = [c["desc"] for c in pk["covers"] if c["status"] != "SATISFIED"]
     if pk["failed"]:
         res["failed_checks"] = pk["failed"]
